@@ -444,8 +444,7 @@ func (em *emitter) prepareCallParameters(fType reflect.Type, fArgs []ast.Express
 				slice := varParamRegs[0]
 				if varArgsCount == 0 {
 					// The slice must be nil, not empty.
-					c := em.fb.makeGeneralValue(reflect.Zero(sliceType))
-					em.changeRegister(true, c, slice, sliceType, sliceType)
+					em.emitZeroValue(slice, sliceType)
 				} else {
 					pos := fArgs[0].Pos()
 					em.fb.emitMakeSlice(true, true, sliceType, int8(varArgsCount), int8(varArgsCount), slice, pos)
@@ -502,9 +501,7 @@ func (em *emitter) prepareCallParameters(fType reflect.Type, fArgs []ast.Express
 			slice := em.fb.newRegister(reflect.Slice)
 			if varArgsCount == 0 {
 				// The slice must be nil, not empty.
-				sliceType := fType.In(fNumIn - 1)
-				c := em.fb.makeGeneralValue(reflect.Zero(sliceType))
-				em.changeRegister(true, c, slice, sliceType, sliceType)
+				em.emitZeroValue(slice, fType.In(fNumIn-1))
 				return fOutRegs, fOutTypes
 			}
 			em.fb.emitMakeSlice(true, true, fType.In(fNumIn-1), int8(varArgsCount), int8(varArgsCount), slice, nil) // TODO: fix pos.
